@@ -33,10 +33,18 @@ def run_search(pid, only=None, timeout=3600, scale=1):
         if os.path.exists(lock):
             shutil.copy(lock, os.path.join(root, 'Cargo.lock'))
         env = dict(os.environ, CARGO_NET_OFFLINE='true', CARGO_TARGET_DIR=CACHE, VERIF_SEARCH_SCALE=str(scale))
-        b = subprocess.run(['cargo', 'build', '--offline', '-q'], cwd=root, env=env, capture_output=True, text=True, timeout=timeout)
-        if b.returncode != 0:
-            return {'status': 'build-failed', 'checks': [], 'log': (b.stdout + b.stderr)[-3000:], 'wall_s': round(time.time() - t0, 1)}
-        cmd = [os.path.join(CACHE, 'debug', 'verif-search'), pid] + (['--only', only] if only else [])
+        # the target directory (dependency cache) is shared between runs; two checks running at the same time against DIFFERENT trees would
+        # overwrite each other's binary between build and execution, so build + private copy happen under a file lock
+        import fcntl
+        os.makedirs(CACHE, exist_ok=True)
+        with open(os.path.join(CACHE, '.verif-build.lock'), 'w') as lk:
+            fcntl.flock(lk, fcntl.LOCK_EX)
+            b = subprocess.run(['cargo', 'build', '--offline', '-q'], cwd=root, env=env, capture_output=True, text=True, timeout=timeout)
+            if b.returncode != 0:
+                return {'status': 'build-failed', 'checks': [], 'log': (b.stdout + b.stderr)[-3000:], 'wall_s': round(time.time() - t0, 1)}
+            exe = os.path.join(root, 'verif-search')
+            shutil.copy2(os.path.join(CACHE, 'debug', 'verif-search'), exe)
+        cmd = [exe, pid] + (['--only', only] if only else [])
         p = subprocess.run(cmd, cwd=root, env=env, capture_output=True, text=True, timeout=timeout)
         checks = []
         for l in p.stdout.split('\n'):
@@ -85,7 +93,7 @@ def vacuity(pid, cfg, say):
             out['problems'].append(f'{unit}: anchor lost: {e}')
             continue
         planted = [i + 1 for i, l in enumerate(lines) if 'VACUITY-PROBE' in l.text]
-        r = vunit.run_verus(lines, os.path.join(VERIF, 'build'), unit + '__vacuity', rlimit=30, threads=12,
+        r = vunit.run_verus(lines, os.path.join(VERIF, 'build', f'p{os.getpid()}'), unit + '__vacuity', rlimit=30, threads=12,
                             extra=('--multiple-errors', '1'))
         hit = set()
         for f in r.get('failures', []):
